@@ -101,6 +101,9 @@ func (l *LBFGS) InitDirection(loc *Location, dir []float64) (stepSize float64) {
 
 	l.a = resize(l.a, l.Store)
 	l.rho = resize(l.rho, l.Store)
+	for i := range l.rho {
+		l.rho[i] = 0
+	}
 	l.y = l.initHistory(l.y)
 	l.s = l.initHistory(l.s)
 
